@@ -107,6 +107,12 @@ pub fn sweep_doc(cx: &mut Cx, w: &World, rng: &mut Rng, origin: &str, d: &CoreDo
   for s in d.service().iter().take(3) {
     qs.push(s.id().to_string());
   }
+  if deep {
+    // keys with wrong-length coordinates, if the document carries any (the harness documents do)
+    for m in d.verification_method().iter().filter(|m| m.id().fragment().map(|f| f.ends_with("-x31") || f.ends_with("-y33")).unwrap_or(false)).take(4) {
+      qs.push(m.id().to_string());
+    }
+  }
   for r in d.verification_relationships().take(3) {
     qs.push(r.id().to_string());
   }
@@ -173,7 +179,7 @@ pub fn sweep_doc(cx: &mut Cx, w: &World, rng: &mut Rng, origin: &str, d: &CoreDo
   }
   // verify_jws against the document (attacker-chosen keys inside the document)
   if deep || rng.chance(1, 4) {
-    let kids: Vec<String> = qs.iter().take(24).cloned().collect();
+    let kids: Vec<String> = qs.clone();
     for kid in kids.iter().rev().take(if deep { 10 } else { 3 }) {
       let (alg, key) = *rng.pick(&[("EdDSA", &w.ed), ("ES256", &w.p256), ("ES256K", &w.k256)]);
       let h = format!(r#"{{"alg":"{}","kid":{}}}"#, alg, serde_json::to_string(kid).unwrap_or_default());
